@@ -1080,3 +1080,180 @@ Proof.
   - apply doctor_report_noninterference. exact L'.
   - apply startup_output_noninterference. exact L'.
 Qed.
+
+(* ==== the authority over TIME: the credential variables follow the configuration loaded at spawn time ============== *)
+Lemma load_config_low w : load_config (low_world w) = low_config (load_config w).
+Proof.
+  unfold load_config, low_world. cbn [w_layers w_misfit].
+  destruct (w_misfit w) as [q|]; cbn [option_map]; [reflexivity | apply merge_layers_low].
+Qed.
+
+Lemma envref_names_low ps : envref_names (map (fun kp => (fst kp, low_patch (snd kp))) ps) = envref_names ps.
+Proof.
+  induction ps as [|[id p] ps IH]; [reflexivity|].
+  change (envref_names ((id, low_patch p) :: map (fun kp => (fst kp, low_patch (snd kp))) ps) = envref_names ((id, p) :: ps)).
+  unfold envref_names in *. cbn [flat_map snd]. rewrite IH. f_equal.
+  unfold low_patch. cbn [pa_key]. destruct (pa_key p) as [[v|n]|]; reflexivity.
+Qed.
+
+(* the NAMES a configuration registers are public: erasure keeps them *)
+Lemma reg_load_low r w : reg_load r (low_world w) = reg_load r w.
+Proof.
+  unfold reg_load. rewrite load_config_low. unfold low_config. cbn [c_providers]. rewrite envref_names_low. reflexivity.
+Qed.
+Lemma reg_load_low_eq r w1 w2 : low_world w1 = low_world w2 -> reg_load r w1 = reg_load r w2.
+Proof. intros L. rewrite <- (reg_load_low r w1), <- (reg_load_low r w2), L. reflexivity. Qed.
+Lemma secret_env_names_low w : secret_env_names (low_world w) = secret_env_names w.
+Proof.
+  unfold secret_env_names. rewrite load_config_low. unfold low_config. cbn [c_providers]. rewrite envref_names_low. reflexivity.
+Qed.
+
+Lemma spawn_env_no_stripped r e k : In k (stripped_names r) -> getenv (spawn_env r e) k = None.
+Proof.
+  intros I. unfold spawn_env. apply (getenv_filter_out (fun n => negb (existsb (str_eqb n) (stripped_names r)))).
+  apply negb_false_iff. apply existsb_exists. exists k. split; [exact I | apply str_eqb_refl].
+Qed.
+
+(* the registry only grows *)
+Lemma stripped_mono r w k : In k (stripped_names r) -> In k (stripped_names (reg_load r w)).
+Proof.
+  unfold stripped_names, reg_load. intros I. apply in_app_or in I. apply in_or_app.
+  destruct I as [I|I]; [left; exact I | right; apply in_or_app; left; exact I].
+Qed.
+Lemma loaded_names_stripped r w k : In k (secret_env_names w) -> In k (stripped_names (reg_load r w)).
+Proof.
+  unfold secret_env_names, stripped_names, reg_load. intros I. apply in_app_or in I. apply in_or_app.
+  destruct I as [I|I]; [left; exact I | right; apply in_or_app; right; exact I].
+Qed.
+
+Lemma spawn_envs_strip evs : forall r e k,
+  In k (stripped_names r) -> Forall (fun env => getenv env k = None) (spawn_envs r e evs).
+Proof.
+  induction evs as [|[w|] evs IH]; intros r e k I; cbn [spawn_envs].
+  - constructor.
+  - apply IH. apply stripped_mono. exact I.
+  - constructor; [apply spawn_env_no_stripped; exact I | apply IH; exact I].
+Qed.
+
+Fixpoint reg_events (r : registry) (evs : list aevent) : registry :=
+  match evs with
+  | [] => r
+  | ALoad w :: rest => reg_events (reg_load r w) rest
+  | ASpawn :: rest => reg_events r rest
+  end.
+Lemma spawn_envs_app pre : forall r e rest,
+  spawn_envs r e (pre ++ rest) = spawn_envs r e pre ++ spawn_envs (reg_events r pre) e rest.
+Proof.
+  induction pre as [|[w|] pre IH]; intros r e rest; cbn [app spawn_envs reg_events].
+  - reflexivity.
+  - apply IH.
+  - rewrite IH. reflexivity.
+Qed.
+
+(* EVERY subprocess spawned after configuration w was loaded - whatever the process loaded or spawned before (pre, r0)
+   and whatever it loads or spawns afterwards (rest) - is handed an environment without the credential variables of w *)
+Theorem tool_env_follows_the_loaded_configuration : forall (r0 : registry) (pre rest : list aevent) (w : world) (e : env) (k : str),
+  In k (secret_env_names w) ->
+  Forall (fun env => getenv env k = None)
+         (skipn (length (spawn_envs r0 e pre)) (spawn_envs r0 e (pre ++ ALoad w :: rest))).
+Proof.
+  intros r0 pre rest w e k I. rewrite spawn_envs_app. rewrite skipn_app, skipn_all, Nat.sub_diag.
+  cbn [skipn app spawn_envs]. apply spawn_envs_strip. apply loaded_names_stripped. exact I.
+Qed.
+
+(* one load, one spawn: the environment of the earlier theorems *)
+Lemma tool_env_at_single w : tool_env_at [w] (w_env w) = tool_env w.
+Proof. reflexivity. Qed.
+
+(* the seeded behaviour (merged list memoised at the first spawn) does not have the property *)
+Definition memoised_list_follows_configuration : Prop :=
+  forall (pre rest : list aevent) (w : world) (e : env) (k : str),
+    In k (secret_env_names w) ->
+    Forall (fun env => getenv env k = None)
+           (skipn (length (spawn_envs_memo [] None e pre)) (spawn_envs_memo [] None e (pre ++ ALoad w :: rest))).
+Definition memo_env : env := [(lit "ACME_LLM_TOKEN", lit "sk-AAAA"); (lit "HOME", lit "/home/u")].
+Definition memo_world_before : world := mkWorld [] memo_env no_ovr None.
+Definition memo_world_after : world :=
+  mkWorld [mkLayer [(lit "acme", mkPatch (Some (lit "http://127.0.0.1:9/v1/responses")) (Some (KEnvRef (lit "ACME_LLM_TOKEN"))) [])]
+                   (Some (lit "acme/m1")) None None None None]
+          memo_env no_ovr None.
+Lemma memo_name_is_credential : In (lit "ACME_LLM_TOKEN") (secret_env_names memo_world_after).
+Proof. vm_compute. do 3 right. left. reflexivity. Qed.
+Lemma memo_probe_sees_the_key :
+  spawn_envs_memo [] None memo_env [ALoad memo_world_before; ASpawn; ALoad memo_world_after; ASpawn]
+  = [memo_env; memo_env].
+Proof. vm_compute. reflexivity. Qed.
+Lemma faithful_probe_does_not :
+  spawn_envs [] memo_env [ALoad memo_world_before; ASpawn; ALoad memo_world_after; ASpawn]
+  = [memo_env; [(lit "HOME", lit "/home/u")]].
+Proof. vm_compute. reflexivity. Qed.
+Theorem memoised_list_refuted : ~ memoised_list_follows_configuration.
+Proof.
+  intros H.
+  specialize (H [ALoad memo_world_before; ASpawn] [ASpawn] memo_world_after memo_env (lit "ACME_LLM_TOKEN") memo_name_is_credential).
+  change ([ALoad memo_world_before; ASpawn] ++ ALoad memo_world_after :: [ASpawn])
+    with [ALoad memo_world_before; ASpawn; ALoad memo_world_after; ASpawn] in H.
+  rewrite memo_probe_sees_the_key in H.
+  assert (P : spawn_envs_memo [] None memo_env [ALoad memo_world_before; ASpawn] = [memo_env]) by (vm_compute; reflexivity).
+  rewrite P in H. cbn [length skipn] in H.
+  inversion H as [|x l Hx Hl]. vm_compute in Hx. discriminate.
+Qed.
+
+(* noninterference for whole HISTORIES of one authority process *)
+Lemma process_runs_agree fuel v p t : forall o1 o2 r,
+  ops_agree r o1 o2 -> process_runs fuel v p t r o1 = process_runs fuel v p t r o2.
+Proof.
+  induction o1 as [|[w1|th1 w1 p1 i1] o1 IH]; intros [|[w2|th2 w2 p2 i2] o2] r A; cbn [ops_agree] in A; try contradiction.
+  - reflexivity.
+  - destruct A as [L A]. cbn [process_runs]. rewrite <- (reg_load_low_eq r w1 w2 L). apply IH. exact A.
+  - destruct A as [E1 [E2 [E3 [L [S A]]]]]. subst th2 p2 i2. cbn [process_runs].
+    assert (R : (if th1 then reg_load r w2 else r) = (if th1 then reg_load r w1 else r))
+      by (destruct th1; [symmetry; apply reg_load_low_eq; exact L | reflexivity]).
+    rewrite R. rewrite <- S. f_equal.
+    + exact (proj1 (noninterference fuel _ th1 w1 w2 p1 i1 L)).
+    + apply IH. exact A.
+Qed.
+Theorem process_noninterference : forall fuel v p (t : env -> tcall -> list str * str) o1 o2,
+  ops_agree [] o1 o2 -> process_runs fuel v p t [] o1 = process_runs fuel v p t [] o2.
+Proof. intros. apply process_runs_agree. assumption. Qed.
+
+(* non-vacuity: the C19-4 sequence - start, a tool run on the session path, the file appears, doctor, a thread run whose
+   provider asks the shell for the variable - with two different keys behind ACME_LLM_TOKEN *)
+Definition hist_env (key : str) : env :=
+  [(E_ENDPOINT, lit "http://127.0.0.1:9/v1/responses"); (lit "ACME_LLM_TOKEN", key); (lit "HOME", lit "/home/u")].
+Definition hist_before (key : str) : world := mkWorld [] (hist_env key) no_ovr None.
+Definition hist_after (key : str) : world :=
+  mkWorld [mkLayer [(lit "acme", mkPatch (Some (lit "http://127.0.0.1:9/v1/responses")) (Some (KEnvRef (lit "ACME_LLM_TOKEN"))) [])]
+                   (Some (lit "acme/m1")) None None None None]
+          (hist_env key) no_ovr None.
+Definition hist_ops (key : str) : list aop :=
+  [OLoad (hist_before key); ORun true (hist_before key) (lit "warm up") [];
+   OLoad (hist_after key); ORun true (hist_after key) (lit "probe") []].
+Definition printenv_acme (e : env) (c : tcall) : list str * str :=
+  match getenv e (lit "ACME_LLM_TOKEN") with Some v => ([v], v) | None => ([], []) end.
+Lemma hist_second_run_hides_the_key :
+  map (fun p => tool_events (fst p))
+      (process_runs 10 (ws_validate leak_script) (ws_prov leak_script) printenv_acme [] (hist_ops (lit "sk-AAAA")))
+  = [[[lit "sk-AAAA"]]; [[]]].
+Proof. vm_compute. reflexivity. Qed.
+Lemma hist_tail_agrees :
+  ops_agree [] [OLoad (hist_after (lit "sk-AAAA")); ORun true (hist_after (lit "sk-AAAA")) (lit "probe") []]
+               [OLoad (hist_after (lit "sk-BBBB")); ORun true (hist_after (lit "sk-BBBB")) (lit "probe") []].
+Proof. vm_compute. repeat split; reflexivity. Qed.
+
+(* T1: what the generated obligation about the spawn path says *)
+Lemma spawn_facts_wf_sound f : spawn_facts_wf f = true ->
+  sf_fixed_names f = [E_API_KEY; E_OPENAI; E_OPENROUTER]
+  /\ sf_names_fresh f = true /\ sf_registry_grows_only f = true /\ sf_load_registers f = true /\ sf_loaders_found f = true
+  /\ 1 <= sf_spawn_sites f /\ sf_spawn_sites f = sf_spawn_sites_stripping f.
+Proof.
+  unfold spawn_facts_wf. intros H.
+  apply andb_true_iff in H; destruct H as [H G7].
+  apply andb_true_iff in H; destruct H as [H G6].
+  apply andb_true_iff in H; destruct H as [H G5].
+  apply andb_true_iff in H; destruct H as [H G4].
+  apply andb_true_iff in H; destruct H as [H G3].
+  apply andb_true_iff in H; destruct H as [H G2].
+  apply (proj1 (list_eqb_spec str_eqb str_eqb_eq _ _)) in H. apply N.eqb_eq in G7. apply N.leb_le in G6.
+  repeat split; assumption.
+Qed.
